@@ -32,7 +32,7 @@ def setup():
   console_output.banner_print = lambda *a, **k: None
   console_output.error_print = lambda *a, **k: None
   console_output.cli_print = lambda *a, **k: None
-  threading.excepthook = lambda a: CRASHES.append(a.exc_type.__name__)
+  threading.excepthook = lambda a: None if a.exc_type is SystemExit else CRASHES.append(a.exc_type.__name__)
   # phases named in LINGER: the body returns at once, the designated override point "called once _thread_proc has
   # finished" keeps the phase thread alive beyond the phase's deadline - the phase keeps its own result
   orig_finished = phase_executor.PhaseExecutorThread._thread_finished
@@ -80,6 +80,7 @@ class Ctx(object):
     self.body_calls = {}
     self.runif_calls = {}
     self.inst = []
+    self.sysexit = set()   # phase ids whose body ended with SystemExit
     self.diag_log = []     # every diagnosis the scripted diagnosers produced, in order: (result id, is_failure, is_internal)
     self.lock = threading.Lock()
     self.times = {}
@@ -166,6 +167,11 @@ def build_phase(node, ctx, htf, diag_enum, diagnoses_lib, plugs=None):
     if raw == 'exc':
       if inv.get('badstr'):
         raise BadStr()      # an exception whose str() raises: rendering the phase record crashes the executor thread
+      if ndiag == 0 and is_sysexit(inv, pid, k):
+        # sys.exit() in a body: not an `Exception`; the framework sees a thread that ended without a result (as a
+        # killed one does): ERROR, terminal, its phase diagnosers are not run - and failure_exceptions must not choke
+        ctx.sysexit.add(pid)
+        raise SystemExit(3)
       raise RuntimeError('phase %d failed' % pid)
     if raw == 'fexc':
       raise Failure('phase %d failed (failure exception)' % pid)
@@ -415,7 +421,10 @@ def canon_record(rec, ctx, start_name=None):
   for p in rec.phases:
     pid = p.name[1:] if p.name.startswith('p') and p.name[1:].isdigit() else p.name
     sub = p.subtest_name[1:] if p.subtest_name else '-'
-    toks.append('p%s:%s:%s:%s:%s:%s' % (pid, p.outcome.name, _res_kind(p.result), sub,
+    kind = _res_kind(p.result)
+    if kind == 'aborted' and str(pid).isdigit() and int(pid) in getattr(ctx, 'sysexit', ()):
+      kind = 'exc'      # nobody aborted: the body ended with SystemExit
+    toks.append('p%s:%s:%s:%s:%s:%s' % (pid, p.outcome.name, kind, sub,
                                         _dots([int(r.name[1:]) for r in p.diagnosis_results]),
                                         _dots([int(r.name[1:]) for r in p.failure_diagnosis_results])))
   for s in rec.subtests:
@@ -593,6 +602,14 @@ def enc_inv(inv, pid=None):
                                       for j, d in enumerate(diags)))
 
 
+def is_sysexit(inv, pid, k):
+  """one 'exc' invocation in four ends its body with sys.exit() instead of an ordinary exception (only on phases
+  without phase diagnosers: the framework treats such a thread like a killed one and does not run them)"""
+  if inv.get('raw') != 'exc' or inv.get('badstr'):
+    return False
+  return bool(inv['sysexit']) if 'sysexit' in inv else (pid * 7 + k) % 4 == 1
+
+
 def enc_phase(node):
   o = node.get('opts') or {}
   ri = node.get('runif')
@@ -602,7 +619,7 @@ def enc_phase(node):
   kinds = _meas_kinds(node)
   # pad every invocation to the declared measurements / attached diagnosers (what the real objects do)
   padded = []
-  for inv in beh:
+  for k_, inv in enumerate(beh):
     meas = list(inv.get('meas') or [])
     for i in range(len(meas), len(kinds)):
       meas.append('pass' if kinds[i] == 'scalar' else 'ppass')
